@@ -3,6 +3,7 @@ package app
 import (
 	"strings"
 	"testing"
+	"time"
 
 	"github.com/yandex/mysync/internal/dcs"
 	"github.com/yandex/mysync/internal/mysql"
@@ -165,4 +166,72 @@ func TestVerifFinding_C20_CheckRecoverySecondStatusVanished(t *testing.T) {
 		t.Fatalf("VIOLATION C20: background recovery check panicked when the second SHOW REPLICA STATUS came back empty: panic: %v [%s]", p, where)
 	}
 	t.Logf("status reads: %d", n)
+}
+
+// vfC20InSubprocess: the switchover procedure runs its per-host steps in goroutines (util.RunParallel); a panic there
+// cannot be recovered by the caller and kills the test binary, exactly as it kills the daemon. Tests (n)-(p) therefore
+// report through the exit of the test process: on the defective tree `go test` prints the goroutine panic and FAILs.
+
+// (n) a pending switch request while the recorded master is not a registered host.
+// History: as finding (a) (m0 removed from ha_nodes, master key still names it), plus the automatic failover request
+// that a previous manager filed for m0. The manager enters the switchover branch BEFORE the registered-master check.
+func TestVerifFinding_C20_SwitchRequestRecordedMasterNotRegistered(t *testing.T) {
+	app, d := vfC20App(t)
+	r1 := vfReplica("r1", "m0", vfC20Gtid)
+	r2 := vfReplica("r2", "m0", vfC20Gtid)
+	vfAddNode(t, app, d, r1, false)
+	vfAddNode(t, app, d, r2, false)
+	vfSetLocal(app, r1)
+	vfCompleteApp(t, app)
+	vfHealthFromDB(app, d)
+	d.put(pathMasterNode, "m0")
+	d.put(pathActiveNodes, []string{"m0", "r1", "r2"})
+	d.put(pathCurrentSwitch, Switchover{From: "m0", Cause: CauseAuto, MasterTransition: FailoverTransition, InitiatedBy: "r2", InitiatedAt: time.Now()})
+	p, where := vfC20Catch(func() { app.stateManager() })
+	if p != nil {
+		t.Fatalf("VIOLATION C20: manager iteration panicked with a pending failover request for the recorded master %q which is not registered among %v: panic: %v [%s]",
+			"m0", app.cluster.AllNodeHosts(), p, where)
+	}
+}
+
+// (o) a pending switch request while the published active list names a host that is not registered any more.
+// History: m1 master, r1, r2; active list [m1 r1 r2]; r2 is stopped and removed with `mysync host remove r2` (which
+// leaves active_nodes alone); before the next healthy iteration rewrites the list an operator files `mysync switch
+// --to r1`. The freeze phase walks the published list.
+func TestVerifFinding_C20_SwitchRequestActiveNodeNotRegistered(t *testing.T) {
+	app, d := vfC20App(t)
+	m1 := vfMaster("m1", vfC20Gtid)
+	r1 := vfReplica("r1", "m1", vfC20Gtid)
+	vfAddNode(t, app, d, m1, false)
+	vfAddNode(t, app, d, r1, false)
+	vfSetLocal(app, m1)
+	vfCompleteApp(t, app)
+	vfHealthFromDB(app, d)
+	d.put(pathMasterNode, "m1")
+	d.put(pathActiveNodes, []string{"m1", "r1", "r2"})
+	d.put(pathCurrentSwitch, Switchover{From: "", To: "r1", Cause: CauseManual, MasterTransition: SwitchoverTransition, InitiatedBy: "op", InitiatedAt: time.Now()})
+	p, where := vfC20Catch(func() { app.stateManager() })
+	if p != nil {
+		t.Fatalf("VIOLATION C20: manager iteration panicked with a pending switch request while active_nodes names the unregistered host r2: panic: %v [%s]", p, where)
+	}
+}
+
+// (q) entering full maintenance while the recorded master is not a registered host.
+func TestVerifFinding_C20_EnterMaintenanceRecordedMasterNotRegistered(t *testing.T) {
+	app, d := vfC20App(t)
+	r1 := vfReplica("r1", "m0", vfC20Gtid)
+	r2 := vfReplica("r2", "m0", vfC20Gtid)
+	vfAddNode(t, app, d, r1, false)
+	vfAddNode(t, app, d, r2, false)
+	vfSetLocal(app, r1)
+	vfCompleteApp(t, app)
+	vfHealthFromDB(app, d)
+	d.put(pathMasterNode, "m0")
+	d.put(pathActiveNodes, []string{"m0", "r1", "r2"})
+	d.put(pathMaintenance, Maintenance{InitiatedBy: "op", InitiatedAt: time.Now()})
+	p, where := vfC20Catch(func() { app.stateManager() })
+	if p != nil {
+		t.Fatalf("VIOLATION C20: entering maintenance panicked with the recorded master %q not registered among %v: panic: %v [%s]",
+			"m0", app.cluster.AllNodeHosts(), p, where)
+	}
 }
